@@ -164,7 +164,9 @@ def strictMatch (params : List String) (eomActive : Bool) (old new : ChanCfg) : 
   params.all fun p => !guardHolds p eomActive old new || paramEq p old new
 
 /-- Timing parameters that the strict switch checks only after the replay, by comparing the
-samples of the EOM channels (`np.isclose` on the listed arrays). -/
+samples of the EOM channels (`np.isclose` on the listed arrays).  This covers them as far as the
+*samples* go: idle time that is absorbed again (`align`, a `min-delay` wait) leaves the samples equal
+while the delay instructions sit elsewhere — finding F5d, monitor only. -/
 def dynamicFields : List String := ["_eom_buffer_time", "eom_config.custom_buffer_time"]
 
 def sampleArrays : List String := ["amp", "det", "phase"]
